@@ -3,10 +3,10 @@
    Models: c12/Utf8.v (Go's utf8.DecodeRuneInString), c12/Encode.v (/repo/encoder.go),
    c12/CliEncode.v (/repo/cli/encoder.go, color.go); reference vocabulary: c12/JsonRef.v. *)
 From Coq Require Import String.
-From Coq Require Import ZArith List NArith.
+From Coq Require Import ZArith List NArith Bool.
 From Coq Require Import Sorted Permutation.
 From Verif Require Import common.Sexp c12.Utf8 c12.JsonRef c12.Encode c12.CliEncode c12.CliPure c12.Utf8Proofs c12.StrProofs
-  c12.NumProofs c12.SortProofs c12.ValueProofs c12.IndentProofs c12.DecodeProofs.
+  c12.NumProofs c12.SortProofs c12.ValueProofs c12.IndentProofs c12.DecodeProofs c12.PolicyProofs c12.RawProofs c12.FloatProofs.
 Import ListNotations.
 Open Scope N_scope.
 
@@ -175,6 +175,125 @@ Theorem C12_default_colors_wf : wf_colors default_colors.
 Proof. repeat split; try exact I; eexists; (split; [reflexivity|reflexivity]). Qed.
 Print Assumptions C12_default_colors_wf.
 
+(* ---- the bit-pattern tests of the float model are the binary64 semantics of the Go code, for EVERY double
+   (bridge to Flocq: F b = Bits.b64_of_bits b; go_lt/go_ge/go_ne = IEEE comparisons through Binary.Bcompare, go_abs =
+   Babs off NaN, go_min/go_max = the builtins; FloatProofs.v).  math.IsNaN ... *)
+Theorem C12_float_isnan_is_ieee : forall b, b < 2 ^ 64 -> go_isnan (F b) = is_nan b.
+Proof. exact is_nan_flocq. Qed.
+Print Assumptions C12_float_isnan_is_ieee.
+
+(* ... f = min(max(f, -math.MaxFloat64), math.MaxFloat64) ... *)
+Theorem C12_float_clamp_is_ieee : forall b, b < 2 ^ 64 -> is_nan b = false ->
+  Bits.bits_of_b64 (go_min (go_max (F b) f_negmax) f_max) = Z.of_N (clamp b).
+Proof. exact clamp_flocq. Qed.
+Print Assumptions C12_float_clamp_is_ieee.
+
+(* ... and the format choice  x := math.Abs(f); x != 0 && x < 1e-6 || x >= 1e21. *)
+Theorem C12_float_format_is_ieee : forall b, b < 2 ^ 64 -> is_nan b = false ->
+  (let x := go_abs (F b) in (go_ne x f_zero && go_lt x f_1em6) || go_ge x f_1e21) = fmt_is_e b.
+Proof. exact format_flocq. Qed.
+Print Assumptions C12_float_format_is_ieee.
+
+(* the float constants are the doubles nearest to 1e-6 (m * 2^-72, within half an ulp), 1e21 (exact) and MaxFloat64 *)
+Theorem C12_float_constants :
+  (2 * Z.abs (4722366482869645 * 10 ^ 6 - 2 ^ 72) <= 10 ^ 6)%Z /\ (7629394531250000 * 2 ^ 17 = 10 ^ 21)%Z /\
+  Binary.B2SF 53 1024 f_1em6 = SpecFloat.S754_finite false 4722366482869645 (-72) /\
+  Binary.B2SF 53 1024 f_1e21 = SpecFloat.S754_finite false 7629394531250000 17 /\
+  Binary.B2SF 53 1024 f_max = SpecFloat.S754_finite false (2 ^ 53 - 1) (1024 - 53).
+Proof.
+  split; [exact const_1em6|]. split; [exact const_1e21|].
+  split; [unfold f_1em6, F; rewrite B2SF_bits; vm_compute; reflexivity|].
+  split; [unfold f_1e21, F; rewrite B2SF_bits; vm_compute; reflexivity|exact SF_max].
+Qed.
+Print Assumptions C12_float_constants.
+
+(* ---- the escaping policy of encodeString (jq's, not encoding/json's): a change is a broken obligation.
+   A byte below 0x80 is copied iff it is in 0x20..0x7E and is neither the quote nor the backslash: so '<', '>', '&',
+   '/', the apostrophe are NOT escaped, DEL and every control byte are ... *)
+Theorem C12_policy_ascii : forall b, b < 0x80 ->
+  encode_string [b] = quote :: (if verbatim b then [b] else escape b) ++ [quote] /\
+  (verbatim b = true <-> (0x20 <= b <= 0x7E /\ b <> 0x22 /\ b <> 0x5C)).
+Proof. exact (fun b H => conj (encode_one_ascii b H) (verbatim_iff b)). Qed.
+Print Assumptions C12_policy_ascii.
+
+(* ... the short escapes are those of quote, backslash, BS, FF, LF, CR, TAB; every other escaped byte is \u00XX with
+   lower-case hex digits ... *)
+Theorem C12_policy_escapes :
+  (escape 0x22 = [92; 34] /\ escape 0x5C = [92; 92] /\ escape 8 = [92; 98] /\ escape 12 = [92; 102] /\
+   escape 10 = [92; 110] /\ escape 13 = [92; 114] /\ escape 9 = [92; 116]) /\
+  (forall b, b < 0x80 -> verbatim b = false -> ~ In b [0x22; 0x5C; 8; 12; 10; 13; 9] ->
+     escape b = [92; 117; 48; 48; hexdig (b / 16); hexdig (b mod 16)]).
+Proof. split; [repeat split; reflexivity|exact escape_long]. Qed.
+Print Assumptions C12_policy_escapes.
+
+(* ... and NO character outside ASCII is ever escaped (U+2028 and U+2029 included): valid UTF-8 whose ASCII bytes
+   are all of the copied class is written as it is between the quotes. *)
+Theorem C12_policy_non_ascii_raw : forall s, utf8_valid s -> Forall (fun b => b < 0x80 -> verbatim b = true) s ->
+  encode_string s = quote :: s ++ [quote].
+Proof. exact encode_string_copies. Qed.
+Print Assumptions C12_policy_non_ascii_raw.
+
+Theorem C12_policy_examples :
+  encode_string (codes "<>&/'"%string) = codes """<>&/'"""%string /\
+  encode_string [0xE2; 0x80; 0xA8] = quote :: [0xE2; 0x80; 0xA8] ++ [quote] /\
+  encode_string [0xE2; 0x80; 0xA9] = quote :: [0xE2; 0x80; 0xA9] ++ [quote] /\
+  encode_string [0x7F] = codes """\u007f"""%string /\
+  encode_string [0x1F; 0x20] = codes """\u001f """%string.
+Proof. exact policy_examples. Qed.
+Print Assumptions C12_policy_examples.
+
+(* ---- the whole command for one value ([cli_print] = createMarshaler + rawMarshaler + the terminator written
+   by printValues + GOJQ_COLORS).  -r / -j / --raw-output0 on a STRING: exactly the bytes of the string (not quoted,
+   not sanitized, not coloured), then newline / nothing / NUL ... *)
+Theorem C12_raw_string : forall fmt f s tbl, table_of f = Some tbl -> rawmode f = true ->
+  f_raw0 f && contains_nul s = false ->
+  cli_print fmt f (VStr s) = Out (s ++ (if f_raw0 f then [0] else if f_join f then [] else [10])).
+Proof. exact raw_string. Qed.
+Print Assumptions C12_raw_string.
+
+(* ... --raw-output0 refuses a string containing NUL ... *)
+Theorem C12_raw0_nul : forall fmt f s tbl, table_of f = Some tbl -> f_raw0 f = true -> contains_nul s = true ->
+  cli_print fmt f (VStr s) = Err.
+Proof. exact raw0_nul. Qed.
+Print Assumptions C12_raw0_nul.
+
+(* ... and on everything else (any non-string under any flags, any value without raw flags) the text is the
+   encoder's under options in which the raw flags do not take part, followed by the same terminator. *)
+Theorem C12_raw_other : forall fmt f v tbl, table_of f = Some tbl ->
+  (rawmode f = false \/ forall s, v <> VStr s) ->
+  cli_print fmt f v =
+  Out (cli_marshal fmt {| o_tab := f_tab f; o_indent := resolve_indent f; o_nocolor := negb (f_color f); o_colors := tbl |} v
+       ++ (if f_raw0 f then [0] else if f_join f then [] else [10])).
+Proof. exact nonraw_value. Qed.
+Print Assumptions C12_raw_other.
+
+(* ---- GOJQ_COLORS: every table setColors can install is a table of SGR sequences (so (b), (c), (d) above apply
+   to every table the command can use); an invalid colour is an error of the command and nothing is printed *)
+Theorem C12_set_colors_wf : forall s t, set_colors s = Some t -> wf_colors t.
+Proof. exact set_colors_wf. Qed.
+Print Assumptions C12_set_colors_wf.
+
+Theorem C12_bad_colors : forall fmt f v, table_of f = None -> cli_print fmt f v = Err.
+Proof. exact bad_colors. Qed.
+Print Assumptions C12_bad_colors.
+
+Theorem C12_set_colors_error : forall s,
+  (let (c, _) := cut_colon s in c <> [] /\ valid_color c = false) -> set_colors s = None.
+Proof. exact set_colors_error_first. Qed.
+Print Assumptions C12_set_colors_error.
+
+(* what any printed value is, for every flag combination and every GOJQ_COLORS: a raw string, or a text that -
+   colour and insignificant whitespace removed - is the library encoder's and reads back as norm v *)
+Theorem C12_cli_print_sound : forall fmt_float,
+  (forall f e, finite f -> fnum_shape e (fmt_float f e) = true) ->
+  forall f v b, wfv v -> cli_print fmt_float f v = Out b ->
+  (exists s, v = VStr s /\ rawmode f = true /\ b = s ++ terminator f) \/
+  (exists body, b = body ++ terminator f /\
+     strip_ws (strip_sgr body) = encode fmt_float v /\
+     json_decode (strip_sgr body) = Some (norm fmt_float v)).
+Proof. exact cli_print_sound. Qed.
+Print Assumptions C12_cli_print_sound.
+
 (* The clause of the property that is NOT proved: text written with --yaml-output reads back with
    --yaml-input as the same value (go-yaml is outside /repo; only exercised by the harness). *)
 
@@ -201,3 +320,11 @@ Example C12_nonvacuous_value :
   indent_ok 32 2 (strip_sgr (cli_marshal fmt o v)) = true /\
   json_decode (encode fmt v) = Some (norm fmt v).
 Proof. cbv zeta. repeat split; vm_compute; reflexivity. Qed.
+
+(* non-vacuity of the Flocq bridge: the neighbours of the thresholds, an infinity, a subnormal *)
+Example C12_nonvacuous_float :
+  fmt_is_e (bits_1em6 - 1) = true /\ fmt_is_e bits_1em6 = false /\ fmt_is_e (bits_1e21 - 1) = false /\
+  fmt_is_e bits_1e21 = true /\ fmt_is_e 1 = true /\ fmt_is_e 0 = false /\ fmt_is_e two63 = false /\
+  clamp (two63 + inf_bits) = two63 + max_bits /\ clamp inf_bits = max_bits /\ is_nan (inf_bits + 1) = true /\
+  go_lt (go_abs (F (two63 + bits_1em6 - 1))) f_1em6 = true /\ go_ge (F inf_bits) f_1e21 = true.
+Proof. repeat split; vm_compute; reflexivity. Qed.
